@@ -32,6 +32,7 @@ KEY_MPIC_DW = 'C05:mpic_latency:depthwise:per-channel-0bit'
 KEY_INCOMP = 'C05:effective-in-features:mps-module-in-input-component'
 KEY_REUSE = 'C05:layer-reuse:per-invocation-shape'
 KEY_TIE = 'C05:coefficient-tie:sampled-coefficients-not-one-hot'
+KEY_NE16_COUNT = 'C05:ne16_latency:per-channel:float32-channel-count'
 LT_NAME = {'Conv1d': 'conv1d', 'Conv2d': 'conv2d', 'Linear': 'linear'}
 
 
@@ -281,6 +282,15 @@ def _run_case(case):
         if ne16:
             cost['ne16_latency'] = ne16_latency
         m, shape = mc.make_mps(desc, cfg, cost)
+        if case.get('force'):
+            # directed assignment: the first `n` channels of one layer take candidate `row`, the others candidate 0
+            fl = m.seed.get_submodule('n%d' % case['force']['instr'])
+            with torch.no_grad():
+                a = fl.w_mps_quantizer.alpha
+                a.zero_()
+                a[0, :] = 1.0
+                a[0, :case['force']['n']] = 0.0
+                a[case['force']['row'], :case['force']['n']] = 1.0
         x = mc.rand_input(cfg, shape, batch=2)
         if case['mode'] == 'hard':
             m.train()
@@ -390,17 +400,21 @@ def _run_case(case):
                 return in_key[ii]
             if pc0 and ex[ii]['pruned']:
                 return KEY_F14
+            if spec == 'ne16_latency' and case.get('force'):
+                return KEY_NE16_COUNT
             return 'C05:%s:%s:%s' % (spec, case['family'], geo[ii]['kind'])
         # ---- oracle: exact bit costs, layer by layer and in total
+        # (shares that are not dyadic -- directed wide layers -- are not exact in float32: 1e-6 band there)
+        neq = (lambda a_, b_: not _close(a_, b_, 1e-6)) if case.get('force') else (lambda a_, b_: a_ != b_)
         if not big:
             for mi_, ii, mod, node, name in layers:
-                if per_layer[ii]['params_bit'] != ex[ii]['pb']:
+                if neq(per_layer[ii]['params_bit'], ex[ii]['pb']):
                     res['fail'].append((cost_key(ii, 'params_bit'), 'params_bit of layer %s is %s but its assignment in summary() '
                                         'stores %d bits' % (name, per_layer[ii]['params_bit'], ex[ii]['pb'])))
-                if per_layer[ii]['ops_bit'] != ex[ii]['ob']:
+                if neq(per_layer[ii]['ops_bit'], ex[ii]['ob']):
                     res['fail'].append((cost_key(ii, 'ops_bit'), 'ops_bit of layer %s is %s but its assignment in summary() '
                                         'performs %d bit-operations' % (name, per_layer[ii]['ops_bit'], ex[ii]['ob'])))
-            if not res['fail'] and (totals['params_bit'] != res['exact']['pb'] or totals['ops_bit'] != res['exact']['ob']):
+            if not res['fail'] and (neq(totals['params_bit'], res['exact']['pb']) or neq(totals['ops_bit'], res['exact']['ob'])):
                 res['fail'].append((KEY_REUSE if res['reuse'] else 'C05:total:%s' % case['family'],
                                     'network cost (params_bit %s, ops_bit %s) but the assignment costs (%d, %d): params_bit once '
                                     'per layer, ops_bit summed over all layer invocations with the output size of each'
@@ -420,17 +434,17 @@ def _run_case(case):
                 res['fail'].append((KEY_REUSE if res['reuse'] else 'C05:total:mpic_latency:%s' % case['family'],
                                     'network mpic_latency %.4f but the layer invocations of the assignment sum to %.4f'
                                     % (totals['mpic_latency'], tot_mp)))
+        if ne16:
+            for mi_, ii, mod, node, name in layers:
+                if not _close(ne_real[ii], ex[ii]['ne16']):
+                    res['fail'].append((cost_key(ii, 'ne16_latency'), 'ne16_latency of layer %s is %.3f, the sub-layers of its '
+                                        'assignment cost %.3f' % (name, ne_real[ii], ex[ii]['ne16'])))
         if ne16 and not res['fail']:
             tot_ne = sum(v['ne16'] for v in ex.values())
             if not _close(totals['ne16_latency'], tot_ne):
                 res['fail'].append((KEY_REUSE if res['reuse'] else 'C05:total:ne16_latency:%s' % case['family'],
                                     'network ne16_latency %.3f but the layer invocations of the assignment sum to %.3f'
                                     % (totals['ne16_latency'], tot_ne)))
-        if ne16:
-            for mi_, ii, mod, node, name in layers:
-                if not _close(ne_real[ii], ex[ii]['ne16']):
-                    res['fail'].append((cost_key(ii, 'ne16_latency'), 'ne16_latency of layer %s is %.3f, the sub-layers of its '
-                                        'assignment cost %.3f' % (name, ne_real[ii], ex[ii]['ne16'])))
         # ---- oracle (per-layer search): numel x bits of the exported layers
         if not cfg['pc'] and case['mode'] == 'eval' and not big:
             e = m.export()
@@ -463,8 +477,9 @@ def _gen_cases(rng, n):
         fam = fams[k % len(fams)]
         ne16 = (k % 4 == 3)
         dim = 1 if (k % 9 == 5 and not ne16) else 2
-        # every 10th net: a depthwise conv directly on the network input, per-channel search with the
-        # 0-bit option and half of the channels pruned (class of the open finding KEY_INCOMP)
+        # every 10th net: a depthwise conv directly on the network input, or a conv summed with the network
+        # input (residual add whose other operand cannot be pruned), per-channel search with the 0-bit
+        # option and half of the channels pruned (class of the open finding KEY_INCOMP)
         probe_in = (k % 10 == 8)
         if probe_in:
             fam, dim = 'pc0', 2
@@ -475,7 +490,7 @@ def _gen_cases(rng, n):
             desc = mc.gen_reuse_desc(rng, couts=(2, 3, 4) if fam == 'pl' else (2, 4, 8))
         else:
             desc = mc.gen_desc(rng, couts=(2, 3, 4) if fam == 'pl' else (2, 4, 8), dim=dim,
-                               first='dw' if (probe_in or (k % 11 == 4 and dim == 2)) else None,
+                               first=('addin' if k % 20 == 18 else 'dw') if probe_in else ('dw' if (k % 11 == 4 and dim == 2) else None),
                                dw_k=(3,) if ne16 else (1, 3))
         cfg = mc.make_cfg(rng, pc=fam != 'pl', zero=fam == 'pc0', ne16=ne16)
         if probe_in:
@@ -485,7 +500,24 @@ def _gen_cases(rng, n):
         case = {'kind': 'cost', 'family': fam, 'desc': desc, 'cfg': cfg, 'mode': 'hard' if rng.random() < 0.3 else 'eval'}
         case['ne16'] = int(ne16 and _ne16_ok(desc, cfg))
         cases.append(case)
-    return cases
+    return cases + _wide_cases(rng)
+
+
+def _wide_cases(rng):
+    """Directed: one wide layer in per-channel search whose split is not dyadic and puts a multiple of the
+    NE16 output tile (32) at one precision -- 96 of 168 conv channels, 96 of 151 linear features: the
+    share n/C times C is 96.000008 in float32."""
+    out = []
+    conv = {'C0': 4, 'T': 4, 'dim': 2, 'wseed': 11, 'prog': [['input'], ['conv', 0, 168, 1, 1, 1], ['relu', 1], ['pool', 2, 'max'],
+                                                               ['flat', 3], ['lin', 4, 4, 1]]}
+    lin = {'C0': 2, 'T': 4, 'dim': 2, 'wseed': 12, 'prog': [['input'], ['conv', 0, 2, 1, 1, 1], ['relu', 1], ['flat', 2],
+                                                              ['lin', 3, 151, 1], ['relu', 4], ['lin', 5, 4, 1]]}
+    for desc, instr in ((conv, 1), (lin, 4)):
+        cfg = mc.make_cfg(rng, pc=True, zero=False, ne16=True)
+        cfg['wp'] = [4, 8]
+        out.append({'kind': 'cost', 'family': 'pc', 'desc': desc, 'cfg': cfg, 'mode': 'eval', 'ne16': 1,
+                    'force': {'instr': instr, 'n': 96, 'row': 1}})
+    return out
 
 
 # ------------------------------------------------------------------------------------------
@@ -696,7 +728,7 @@ def run(chk):
         chk.corr(case, r.get('feat'), a.get('feat'), 'effective input features / alive output features per layer')
         chk.corr(case, r.get('shown'), _sort_shown(a.get('shown')),
                  'what the probing CostSpec is shown, entry by entry (as a multiset per layer), with the entry weights')
-        if not r.get('big'):
+        if not r.get('big') and not case.get('force'):      # non-dyadic shares are not exact in float32
             chk.corr(case, r.get('lc'), a.get('lc'), 'per-layer params_bit / ops_bit')
             chk.corr(case, r.get('cost'), a.get('cost'), 'network params_bit / ops_bit')
         if r.get('mpic_total') is not None and a.get('mpic', 'na') != 'na':
